@@ -4,6 +4,8 @@ Everything here is deterministic given VERIF_SEED and the current /repo working 
 Paths are derived from this file's location so that the same code runs from /verif
 and from a `vp run` snapshot.
 """
+import sys
+sys.set_int_max_str_digits(0)
 import fcntl
 import hashlib
 import json
